@@ -57,7 +57,7 @@ theorem api_ptr_has_err_path : ∀ e ∈ apiTable, e.ret = .ptr → e.hasErrPath
 def sridFromFirstList : List String :=
   ["GEOSBoundary_r", "GEOSBufferWithParams_r", "GEOSBufferWithStyle_r", "GEOSBuffer_r", "GEOSBuildArea_r",
    "GEOSClipByRect_r", "GEOSConcaveHullByLength_r", "GEOSConcaveHullOfPolygons_r", "GEOSConcaveHull_r",
-   "GEOSConstrainedDelaunayTriangulation_r", "GEOSConvexHull_r", "GEOSCoverageUnion_r", "GEOSDelaunayTriangulation_r",
+   "GEOSConstrainedDelaunayTriangulation_r", "GEOSConvexHull_r", "GEOSCoverageSimplifyVW_r", "GEOSCoverageUnion_r", "GEOSDelaunayTriangulation_r",
    "GEOSDensify_r", "GEOSDifferencePrec_r", "GEOSDifference_r", "GEOSDisjointSubsetUnion_r", "GEOSEnvelope_r",
    "GEOSGeomGetEndPoint_r", "GEOSGeomGetPointN_r", "GEOSGeomGetStartPoint_r", "GEOSGeom_extractUniquePoints_r",
    "GEOSGeom_setPrecision_r", "GEOSGetCentroid_r", "GEOSInterpolateNormalized_r", "GEOSInterpolate_r",
@@ -74,9 +74,10 @@ def sridFromFirstList : List String :=
 SRID by construction (the result is a copy of the argument, or is built by the argument's factory); whether the SRID
 really arrives is observed at run time by the `api-seq` stream for every constructive call.  (Five functions that were
 listed here as findings — `GEOSGeomGetPointN/StartPoint/EndPoint_r`, `GEOSConstrainedDelaunayTriangulation_r`,
-`GEOSGeom_setPrecision_r` — were repaired in /repo by commit 4f07ce3c6 and are now in `sridFromFirstList`.) -/
+`GEOSGeom_setPrecision_r` — were repaired in /repo by commit 4f07ce3c6 and are now in `sridFromFirstList`; `GEOSCoverageSimplifyVW_r`,
+whose result carried the SRID of the factory, by e7874c13b.) -/
 def sridNotSyntactic : List String :=
-  ["GEOSGeom_clone_r", "GEOSGeom_transformXY_r", "GEOSGeom_transformXYZ_r", "GEOSUnionCascaded_r", "GEOSCoverageSimplifyVW_r",
+  ["GEOSGeom_clone_r", "GEOSGeom_transformXY_r", "GEOSGeom_transformXYZ_r", "GEOSUnionCascaded_r",
    -- operations on arrays of geometries (no single "first argument")
    "GEOSPolygonize_r", "GEOSPolygonize_valid_r", "GEOSPolygonizer_getCutEdges_r"]
 
